@@ -22,8 +22,9 @@ RULE = ("cases = (decimal places 5..9, extrusion geometry (layer, nozzle, "
         "filament), list of <=25 ops: move with partial axes and extra "
         "parameters, rapid, move_absolute, rapid_absolute, polyline/arc paths, "
         "set_distance_mode, set_extrusion_mode, set_axis(E=v), add_hook/"
-        "remove_hook of probe hooks, a rewriting hook and the extrusion hook, "
-        "move_hook() contexts); non-trivial = >=3 G1 segments with the "
+        "remove_hook of probe hooks, a rewriting hook, a hook that returns a new "
+        "dict with a word left out, and the extrusion hook, move_hook() contexts "
+        "with hooks added/removed inside the block); non-trivial = >=3 G1 segments with the "
         "extrusion hook active, in relative distance mode or spanning an E "
         "reset or an extrusion-mode switch; distinct by SHA-1")
 ASSUMPTIONS = [
@@ -43,8 +44,15 @@ LEVEL_TEXT = ("Generated histories with hooks installed/removed along the way; "
               "closed-form filament length. Exploration.")
 
 
-def op_strategy():
+def op_strategy(depth=1):
     from hypothesis import strategies as st
+    if depth > 0:
+        inner = op_strategy(0)
+        ctx = st.fixed_dictionaries({
+            "op": st.just("hookctx"),
+            "hook": st.sampled_from(["probe1", "probe2", "rewrite", "extrude", "drop"]),
+            "body": st.lists(inner, max_size=4)})
+        return st.one_of(inner, inner, inner, inner, inner, ctx)
     c = hist.small_coord()
     pt = st.fixed_dictionaries({}, optional={"x": c, "y": c, "z": c})
     v = st.one_of(st.integers(0, 3000).map(float), st.floats(min_value=0, max_value=1e4))
@@ -68,9 +76,9 @@ def op_strategy():
         st.sampled_from(["absolute", "relative"]).map(lambda m: {"op": "set_extrusion_mode", "mode": m}),
         st.one_of(st.just(0.0), st.just(0.0), st.floats(min_value=-20, max_value=20)).map(
             lambda e: {"op": "set_axis_E", "E": e}),
-        st.sampled_from(["probe1", "probe2", "rewrite", "extrude", "extrude"]).map(
+        st.sampled_from(["probe1", "probe2", "rewrite", "extrude", "extrude", "drop"]).map(
             lambda h: {"op": "add_hook", "hook": h}),
-        st.sampled_from(["probe1", "probe2", "rewrite", "extrude"]).map(
+        st.sampled_from(["probe1", "probe2", "rewrite", "extrude", "drop"]).map(
             lambda h: {"op": "remove_hook", "hook": h}),
     )
 
@@ -102,12 +110,18 @@ class Runner:
                 new["F"] = new["F"] / 2.0
             return new
 
+        def drop(origin, target, params, state):
+            """Returns a NEW dict that leaves the A word out."""
+            self.calls.append(("drop", tuple(origin), tuple(target), dict(params)))
+            new = ParamsDict({k: v for k, v in params.items() if k.upper() != "A"})
+            return new
+
         def extrude(origin, target, params, state):
             self.calls.append(("extrude", tuple(origin), tuple(target), dict(params)))
             return ext(origin, target, params, state)
 
         self.hooks = {"probe1": mk_probe("probe1"), "probe2": mk_probe("probe2"),
-                      "rewrite": rewrite, "extrude": extrude}
+                      "rewrite": rewrite, "extrude": extrude, "drop": drop}
         self.ext_segments = 0
         self.ext_flags = set()
 
@@ -129,6 +143,18 @@ class Runner:
             g.remove_hook(self.hooks[op["hook"]])
             if op["hook"] in self.installed:
                 self.installed.remove(op["hook"])
+            return
+        if name == "hookctx":
+            # with g.move_hook(h): registers h for the block and removes it after
+            h = op["hook"]
+            with g.move_hook(self.hooks[h]):
+                if h not in self.installed:
+                    self.installed.append(h)
+                for sub in op["body"]:
+                    self.step(sub)
+            if h in self.installed:
+                self.installed.remove(h)
+            self.cl.add("move_hook_context")
             return
         if name == "set_distance_mode":
             g.set_distance_mode(op["mode"])
@@ -195,6 +221,8 @@ class Runner:
             # parameter chain: each hook receives what its predecessor returned
             for a, b in zip(chunk, chunk[1:]):
                 exp = dict(a[3])
+                if a[0] == "drop":
+                    exp = {k: v for k, v in exp.items() if k.upper() != "A"}
                 if a[0] == "rewrite":
                     exp["Q"] = 7.5
                     if exp.get("F") is not None:
@@ -210,6 +238,8 @@ class Runner:
             # emitted words == what the last hook returned
             if chunk:
                 last = dict(chunk[-1][3])
+                if chunk[-1][0] == "drop":
+                    last = {k: v for k, v in last.items() if k.upper() != "A"}
                 if chunk[-1][0] == "rewrite":
                     last["Q"] = 7.5
                     if last.get("F") is not None:
